@@ -606,6 +606,9 @@ func parseExcludeFile(openFile openFileFunc) (excludeIPs scan.IPContainer, err e
 			return
 		}
 	}
+	if err = scanner.Err(); err != nil {
+		return
+	}
 	excludeIPs = ranger
 	return
 }
